@@ -1440,7 +1440,7 @@ func NewStateLoop(
 ) *StateLoop {
 	schema := mach.Schema()
 	if !mach.Has1(loopState) {
-		return &StateLoop{ended: true}
+		return &StateLoop{ended: true, mach: mach, loopState: loopState}
 	}
 
 	// collect related states
